@@ -488,12 +488,10 @@ theorem construct_some {V : Type} (cv : Conv V) (numId : Nat) (rules : List (Rul
         · cases h
         · split at h
           · cases h
-          · split at h
+          · rename_i attrs ha
+            split at h
             · cases h
-            · rename_i attrs ha
-              split at h
-              · cases h
-              · cases h; exact ha
+            · cases h; exact ha
 
 /-- every attribute of an object built from `row` comes from its rule, its slot and `row` -/
 theorem construct_attr {V : Type} (cv : Conv V) (numId : Nat) (rules : List (Rule V))
